@@ -1429,6 +1429,12 @@ def get_attr(ip, obj, attr, node, fr):
         if ip.mode == 'code' and not hasattr(pytype, attr):
             raise PyRaise(VExc('AttributeError'), node)
     if isinstance(obj, VList):
+        if obj.ek == KInt and attr in ('itemsize', 'tobytes'):
+            # T-ARRAY: the integer lists of the index objects (DB.tx_counts) are array('Q'): 8-byte items
+            ip.assumed.add("T-ARRAY: integer-list fields are array('Q') objects: itemsize 8, tobytes() is 8 bytes per item (little endian)")
+            if attr == 'itemsize':
+                return VConst(8)
+            return VFunc('bound', 'list.tobytes', self_val=obj)
         has(tuple if obj.ghost.get('tuple') else list)
         return VFunc('bound', f'list.{attr}', self_val=obj)
     if isinstance(obj, VSet):
@@ -2315,6 +2321,15 @@ def method(tname, *names):
     return deco
 
 
+@method('list', 'tobytes')
+def _l_tobytes(ip, recv, args, kwargs, node, fr):
+    '''array('Q').tobytes(): 8 bytes per item; content kept abstract (arr_bytes of the item array and the count)'''
+    f = UF('arrq_bytes', z3.ArraySort(z3.IntSort(), z3.IntSort()), z3.IntSort(), z3.SeqSort(ByteSort))
+    r = f(recv.arr, recv.n)
+    ip.assume(seq_len(r) == 8 * recv.n)
+    return VBytes(r)
+
+
 @method('list', 'append')
 def _l_append(ip, recv, args, kwargs, node, fr):
     list_append(ip, recv, args[0])
@@ -3034,7 +3049,7 @@ def comprehension(ip, e, fr, kind):
 SPEC_FUNCS = {'old', 'forall', 'exists', 'implies', 'iff', 'ite', 'dom', 'union', 'inter', 'diff', 'subset',
               'empty', 'add', 'remove', 'use', 'check', 'assume', 'pow2', 'store', 'lookup', 'has',
               'is_none', 'some', 'slice_', 'concat', 'listof', 'setof', 'card', 'fresh', 'havoc', 'tup',
-              'seq_eq', 'div', 'mod', 'bv', 'apply', 'let', 'take', 'snoc', 'copy', 'drop', 'sub', 'is_err', 'okval', 'truthy', 'truthy_j', 'py_eq'}
+              'seq_eq', 'div', 'mod', 'bv', 'apply', 'let', 'take', 'snoc', 'copy', 'drop', 'sub', 'is_err', 'okval', 'truthy', 'truthy_j', 'py_eq', 'bjoin'}
 
 
 def find_old(fr):
@@ -3223,6 +3238,14 @@ def spec_call(ip, e, fr):
     if name == 'concat':
         a, b = ev(e.args[0]), ev(e.args[1])
         return binop(ip, ast.Add(), a, b, e)
+    if name == 'bjoin':
+        # b''.join(list of bytes): the same uninterpreted function the code model uses
+        v = ev(e.args[0])
+        if not isinstance(v, VList):
+            raise EngineError('bjoin() expects a list of bytes')
+        if v.ek is None:
+            return VConst(b'')
+        return VBytes(ip.V.bjoin(v.arr, v.n))
     if name == 'card':
         return _len(ip, [ev(e.args[0])], {}, e, fr)
     if name == 'tup':
